@@ -30,7 +30,7 @@ RULE = (
 REAL = ["SimulationConfig(use_complex_fields)", "place_objects", "apply_params", "forward", "run_fdtd", "custom_fdtd_forward"]
 STUB = ["per-cell material arrays are written into the placed ArrayContainer", "tqdm disabled"]
 ASSUMPTIONS = [
-    "float64 / complex128; real parts compared at 1e-12, imaginary parts at 1e-13, both relative to the per-array max of the real run",
+    "float64 / complex128; real parts compared at 1e-12, imaginary parts at 1e-13, both relative to the per-array max of the real run (arrays below 1e-3 of the field maximum are judged on that absolute scale)",
     "no Bloch boundary (the statement excludes a non-zero Bloch phase); initial fields are real",
     "plane sources sit on exactly isotropic planes",
 ]
@@ -51,7 +51,7 @@ def shrink(spec):
     return rp.shrinks(spec, min_sources=0)
 
 
-def _split(d_cplx: dict, ref: dict):
+def _split(d_cplx: dict, ref: dict, floor: float = 0.0):
     """(real parts, worst |imag| relative to the reference array max) of a dict of arrays."""
     re, worst, wk = {}, 0.0, ""
     for k, v in d_cplx.items():
@@ -60,7 +60,7 @@ def _split(d_cplx: dict, ref: dict):
             im = np.abs(np.imag(v))
             if not np.all(np.isfinite(im)):
                 return re, float("inf"), k
-            s = float(np.max(np.abs(ref[k]))) if k in ref and ref[k].size else 0.0
+            s = max(float(np.max(np.abs(ref[k]))) if k in ref and ref[k].size else 0.0, floor)
             m = float(np.max(im))
             r = 0.0 if m == 0.0 else (m / s if s > 0 else float("inf"))
             if r > worst:
@@ -98,20 +98,22 @@ def execute(spec):
         arrays = [rp.set_fields(s, E0, H0) for s in scenes]
     states = [st.state0(a) for st, a in zip(steppers, arrays)]
     phasor = {d["name"] for d in spec["detectors"] if d["kind"] == "phasor"}
-    fa = None
+    fa, g_run = None, 0.0
     for t in range(T):
         states = [st.fwd(s) for st, s in zip(steppers, states)]
         rp.count_steps(stats, 2, scenes[0].dt)
         fa, fb = dr.fields_np(states[0]), dr.fields_np(states[1])
-        re, im, ik = _split(fb, fa)
-        mon.dicts("real_part_vs_real_run", t, fa, re, TOL)
+        g = rp.field_scale(fa)
+        g_run = max(g_run, g)
+        re, im, ik = _split(fb, fa, rp.FLOOR * g)
+        mon.dicts("real_part_vs_real_run", t, fa, re, TOL, floors=rp.FLOOR * g)
         mon.check("imaginary_part", t, im, TOL_IMAG, key=ik)
         ra_, rb_ = dr.detectors_np(states[0]), dr.detectors_np(states[1])
         # phasor records are complex in both runs and compared as such; all others must be real-typed and equal
         for k, v in rb_.items():
             if k.split("/")[0] not in phasor and np.iscomplexobj(v):
                 mon.check("record_dtype", t, float("inf"), 0.0, key=k)
-        mon.dicts("records_vs_real_run", t, ra_, rb_, TOL)
+        mon.dicts("records_vs_real_run", t, ra_, rb_, TOL, floors=rp.record_floors(spec, g_run, ra_))
     nontrivial = bool(np.max(np.abs(fa["E"])) > 0 or np.max(np.abs(fa["H"])) > 0)
 
     lp = spec.get("loop") or {}
